@@ -44,6 +44,19 @@ func parseProtectedHeaders(encoded string) (*jwsProtectedHeader, error) {
 	}
 
 	// delete attributes that are already defined in jwsProtectedHeader.
+	// encoding/json matches the keys of a JSON object to struct fields
+	// case-insensitively, while JWS header parameter names are case-sensitive
+	// and the JWT library reads "alg" by its exact name. A header such as
+	// "Alg" or "CTY" would be used in place of the real one.
+	for key := range protected.ExtendedAttributes {
+		for _, headerKey := range headerKeys {
+			if key != headerKey && strings.EqualFold(key, headerKey) {
+				return nil, &signature.InvalidSignatureError{
+					Msg: fmt.Sprintf("jws envelope protected header %q is ambiguous with header %q", key, headerKey)}
+			}
+		}
+	}
+
 	for _, headerKey := range headerKeys {
 		delete(protected.ExtendedAttributes, headerKey)
 	}
